@@ -520,11 +520,19 @@ func runC11(ch *Choices, cfg *RunCfg) (o *Outcome) {
 	setMapOrder(ch.Salt("mapsalt"))
 	pair := ch.Intn(2, "inst.pair") == 1
 	tm, nm := copyMaps()
+	switch ch.Pick([]int{70, 0, 15, 15}, "tm.variant") {
+	case 2:
+		tm, _ = typeMapVariant(ch, 2)
+		o.Probes["caller's type map partial"]++
+	case 3:
+		tm, _ = typeMapVariant(ch, 3)
+		o.Probes["caller's type map shuffled / oddly typed"]++
+	}
 	if ch.Intn(5, "tm.odd") == 1 {
 		// a legal but unusual registration: some classes registered through a pointer type
 		salt := ch.Salt("tm.oddsalt")
 		for _, k := range sortedTypeKeys() {
-			if t := tm[k]; t.Kind() == reflect.Struct && mix64(hashString(k)^salt)%3 == 0 {
+			if t := tm[k]; t != nil && t.Kind() == reflect.Struct && mix64(hashString(k)^salt)%3 == 0 {
 				tm[k] = reflect.PtrTo(t)
 			}
 		}
